@@ -54,6 +54,15 @@ ValOK == \A i \in 1..Len(produced) : produced[i][2] # ABSENT /\ produced[i][2] \
 NoFuel == cur.st # "FUEL"
 Produced == {produced[i][1] : i \in 1..Len(produced)}
 NoSkip == (phase = "done" /\ cur.st = "END") => \A k \in KeySet : (InR(k) /\ k \notin touched /\ ABSENT \notin seenv[k]) => k \in Produced
+\* NOT in any configuration: TLC violates NvW within seconds (universe K5L, two writes) with exactly the listed known finding of C10
+\* (iscan-misses-entry-inserted-at-its-start-position-after-open) at call grain: the cursor stands at the link tuple of layer 0, the layer below
+\* vanishes and is created again between two calls, the new link has the tuple the cursor is positioned at and is skipped (strict comparison),
+\* and the callback reports the border's version after the insert.  Kept as the executable statement of that finding.
+\* C06 for the paused cursor: when it has ended, a key that was inserted while it was open (absent at some instant since the open, present now)
+\* and lies in the interval is in its result, or one of the (version, node) pairs it reported is stale
+NvW == (phase = "done" /\ cur.st = "END") => \A k \in KeySet : (InR(k) /\ abs[k] # ABSENT /\ ABSENT \in seenv[k] /\ k \notin Produced) =>
+            \E q \in 1..Len(cur.cbs) : node[cur.cbs[q][2]].ver # cur.cbs[q][1]
+NvNonEmpty == (phase = "done" /\ cur.st = "END") => Len(cur.cbs) >= 1
 \* early_abort: a modification of the border under the cursor is reported by the next call (checked when that call has been made)
 EaOK == (arg.ea /\ cur.st \in {"OK", "END"}) => TRUE
 WarnOnlyIfEa == cur.st = "WARN" => arg.ea
